@@ -378,11 +378,21 @@ pub struct LayoutReport {
 	/// (col, tier) -> (filled, file length)
 	pub tables: BTreeMap<(u8, u8), (u64, u64)>,
 	pub shared_nodes: u64,
+	/// slots of multitree columns that were claimed by a transaction which was lost in a crash
+	/// (never written, or taken off the free list) - known finding, tolerated only on request
+	pub claim_leaks: u64,
 }
 
 /// Checks every structural invariant of C14 on a closed database directory; when an
 /// interpreter is given the content is also compared with its model.
 pub fn check_dir(cfg: &DbCfg, dir: &Path, it: Option<&Interp>) -> LRes<LayoutReport> {
+	check_dir_opts(cfg, dir, it, false)
+}
+
+/// `tolerate_claim_leaks`: in multitree columns, count (instead of reporting) slots that are
+/// neither live nor free but were never written / are tombstones off the free list - the
+/// signature of entries claimed at commit time by a transaction that a crash then lost.
+pub fn check_dir_opts(cfg: &DbCfg, dir: &Path, it: Option<&Interp>, tolerate_claim_leaks: bool) -> LRes<LayoutReport> {
 	let mut rep = LayoutReport::default();
 	let salt = if cfg.zero_salt { [0u8; 32] } else { FIXED_SALT };
 	for (c, ccfg) in cfg.cols.iter().enumerate() {
@@ -413,6 +423,11 @@ pub fn check_dir(cfg: &DbCfg, dir: &Path, it: Option<&Interp>) -> LRes<LayoutRep
 					lfail!("layout-slot-live-and-free", "col {col} tier {tier:02x} slot {s}: on the free list and part of a live chain")
 				}
 				if used == 0 && !free.contains(&s) {
+					let unwritten = t.slot(s).map_or(true, |b| b.iter().all(|x| *x == 0));
+					if tolerate_claim_leaks && ccfg.kind == Kind::Multi && (is_tomb || unwritten) {
+						rep.claim_leaks += 1;
+						continue
+					}
 					if is_tomb {
 						lfail!("layout-tombstone-not-on-free-list", "col {col} tier {tier:02x} slot {s}: freed but not reachable from the free list (leaked)")
 					} else {
@@ -439,10 +454,13 @@ fn check_btree(col: u8, ccfg: &ColCfg, img: &mut ColImg, model: Option<&ColModel
 				let size = u16::from_le_bytes([b[0], b[1]]) & 0x7fff;
 				if size == 0 && t.filled <= 1 {
 					(0, 0)
-				} else if size != 12 {
-					lfail!("layout-btree-header", "col {col}: header entry has size {size}, expected 12")
 				} else {
-					(u64::from_le_bytes(b[2..10].try_into().unwrap()), u32::from_le_bytes(b[10..14].try_into().unwrap()))
+					// every entry of a reference counted column carries a 4-byte count
+					let o = if ccfg.rc { 6 } else { 2 };
+					if size as usize != 12 + o - 2 {
+						lfail!("layout-btree-header", "col {col}: header entry has size {size}, expected {}", 12 + o - 2)
+					}
+					(u64::from_le_bytes(b[o..o + 8].try_into().unwrap()), u32::from_le_bytes(b[o + 8..o + 12].try_into().unwrap()))
 				}
 			},
 		},
